@@ -149,26 +149,81 @@ Section R.
       assert (Hstn : r_pos stn = r_pos st + len px /\ r_len stn = r_len st /\ r_e stn = r_e st /\ r_pos0 stn = r_pos0 st /\
                      r_rest stn = dropN (len px) (r_rest st) /\
                      (l <> [] -> r_dep stn = r_dep st)).
-      { subst stn. destruct l as [|y l']; cbn; repeat split; try reflexivity; try lia.
-        - unfold dropN. cbn. reflexivity.
-        - congruence. }
+      { subst stn. destruct l as [|y l']; cbn; repeat split; try reflexivity; try lia; try congruence. }
       destruct Hstn as (Hn1 & Hn2 & Hn3 & Hn4 & Hn5 & Hn6).
       destruct l as [|y l'].
       + (* last member *)
-        cbn [map struct_loop gparts concat]. eexists. repeat split.
-        * rewrite frev_rev. cbn [rev]. rewrite <- app_assoc, <- frev_rev. reflexivity.
+        cbn [map struct_loop gparts concat]. exists stn. repeat split; try assumption.
+        * rewrite !frev_rev. reflexivity.
         * rewrite Hn1, app_nil_r. reflexivity.
-        * assumption.
       + destruct (IH fuel stn start w (off + len px) (x :: acc) b A) as (st' & Hrun & Hp' & Hl'); try assumption; try lia.
-        * congruence.
-        * rewrite Hn6 by discriminate. assumption.
-        * rewrite Hn6 by discriminate. assumption.
         * intros z Hz. apply Hdiv. now right.
-        * exists t. rewrite Hn5, Ht. rewrite app_assoc, dropN_app_len.
-          split; [now rewrite <- app_assoc|]. rewrite !len_app in *. lia.
+        * exists t. rewrite Hn5, Ht. rewrite <- app_assoc, dropN_app_len.
+          split; [reflexivity|]. rewrite !len_app in *. lia.
         * rewrite Hn2 in Hrun. exists st'. repeat split.
           -- rewrite Hrun. rewrite !frev_rev. cbn [rev]. now rewrite <- app_assoc.
-          -- rewrite Hp', Hn1. cbn [gparts concat]. fold px. rewrite len_app. lia.
+          -- rewrite Hp', Hn1. change (gparts e (x :: y :: l') off) with (px :: gparts e (y :: l') (off + len px)).
+             cbn [concat]. rewrite len_app. lia.
           -- congruence.
+  Qed.
+
+  Lemma for_encoded_ok n : n < big -> exists w, for_encoded_container n = Ok w.
+  Proof.
+    unfold big. intros H. unfold for_encoded_container. rewrite for_bare_cases. rewrite !N.mul_0_l, !N.add_0_r.
+    destruct (n <=? 255); [eexists; reflexivity|]. destruct (n <=? 65535); [eexists; reflexivity|].
+    destruct (n <=? 4294967295); [eexists; reflexivity|].
+    destruct (N.leb_spec n 18446744073709551615); [eexists; reflexivity|lia].
+  Qed.
+  Lemma gparse_padding_aligned st al : al <> 0 -> (r_pos0 st + r_pos st) mod al = 0 -> gparse_padding st al = Ok st.
+  Proof. intros Ha H. unfold gparse_padding. rewrite (padn_aligned _ _ Ha H). reflexivity. Qed.
+
+  Lemma rt_fixed_struct l : Forall rt_fixed l -> rt_fixed (GStruct l).
+  Proof.
+    intros HF fuel st b Hfuel He Hw Hp Hfx Hs Hd Hf Hl Hst.
+    destruct fuel as [|f]; [cbn in Hfuel; lia|]. rewrite gheight_struct in Hfuel.
+    pose proof (pre_align e _ Hp Hw) as Hal. cbn [gsig] in Hal, Hs, Hfx, Hst |- *.
+    destruct (pre_node e _ Hp) as (_ & Hnt & _ & _ & _).
+    cbn [gwf] in Hw. apply andb_true_iff in Hw as [Hnel Hwl].
+    unfold pre in Hp. rewrite all_nodes_struct in Hp. apply andb_true_iff in Hp as [_ Hpl].
+    unfold gfits in Hf. cbn [gdepth_ok] in Hf. apply andb_true_iff in Hf as [Hf Hfl]. apply andb_true_iff in Hf as [Hf1 Hf2].
+    apply N.leb_le in Hf1, Hf2.
+    destruct (inc_struct_good _ Hd Hf1 Hf2) as (d' & Hinc & Hd' & Hs' & Ha' & Ht').
+    set (sigs := map gsig l) in *. rewrite galign_struct in *. set (A := galigns sigs) in *.
+    assert (HA : A <> 0) by apply galigns_nz.
+    change (gis_fixed (SStruct sigs)) with (forallb gis_fixed sigs) in Hfx.
+    (* the bytes: no framing offsets, and no final padding outside the tail_padding class *)
+    assert (Hgvb : gvb e (GStruct l) = concat (gparts e l 0)).
+    { rewrite gvb_struct. fold sigs A.
+      assert (Hsne : sigs <> []) by (subst sigs; destruct l; [discriminate|discriminate]).
+      assert (Htb : forall pss, tuple_bytes A sigs pss =
+                 if forallb gis_fixed sigs then concat pss ++ pad (len (concat pss)) A
+                 else concat pss ++ framing (len (concat pss)) (rev (tuple_offsets sigs (ends_from 0 pss)))).
+      { intros pss. unfold tuple_bytes. destruct sigs; [congruence|reflexivity]. }
+      rewrite Htb, Hfx. cbn [node_tail] in Hnt. fold sigs A in Hnt. rewrite Hfx in Hnt. cbn [andb] in Hnt.
+      apply negb_false_iff, N.eqb_eq in Hnt. unfold pad. rewrite Hnt. cbn. now rewrite app_nil_r. }
+    rewrite Hgvb in *. set (data := concat (gparts e l 0)) in *.
+    set (p := padn (r_pos0 st + r_pos st) A).
+    unfold gde. rewrite (gde_gen_struct read_last f st sigs Hs). rewrite Hs, Hal.
+    rewrite <- app_assoc in Hst. rewrite (gparse_padding_starts st A _ Hst). cbn [bind]. fold p.
+    apply starts_after_pad in Hst. fold p in Hst.
+    assert (Hal2 : (r_pos0 (adv st p) + r_pos (adv st p)) mod A = 0).
+    { cbn [adv r_pos0 r_pos]. rewrite N.add_assoc. subst p. now apply padn_after. }
+    change (r_sig (adv st p)) with (r_sig st). rewrite Hs, Hal.
+    rewrite (gparse_padding_aligned _ _ HA Hal2). cbn [bind].
+    change (r_dep (adv st p)) with (r_dep st). rewrite Hinc. cbn [bind]. cbv zeta.
+    cbn [rset_dep r_pos r_len adv].
+    destruct Hst as (t & Ht & Hbound). cbn [adv r_pos r_rest r_len] in Ht, Hbound.
+    assert (Hb2 : r_pos st + p + len data <= r_len st) by (rewrite len_app in Hbound; unfold bytes in *; lia).
+    unfold big in Hl.
+    destruct (N.ltb_spec (r_len st) (r_pos st + p)); [lia|].
+    destruct (for_encoded_ok (r_len st - (r_pos st + p))) as [w Hw']; [unfold big; lia|]. rewrite Hw'. cbn [bind].
+    set (st2 := rset_dep (adv st p) d').
+    destruct (struct_loop_fixed l HF f st2 (r_pos st + p) w 0 [] b A) as (st' & Hrun & Hp' & Hl'); subst st2; cbn [rset_dep adv r_e r_dep r_len r_pos r_pos0 r_rest]; try assumption; try lia.
+    - rewrite Hs', Ha', Ht'. assumption.
+    - rewrite <- N.add_assoc. cbn [adv r_pos0 r_pos] in Hal2. rewrite <- N.add_assoc in Hal2. assumption.
+    - intros x Hx. apply pow2_div; [apply galigns_pow2|apply galign_pow2|]. apply galigns_ge. subst sigs. now apply in_map.
+    - exists t. split; [exact Ht|exact Hbound].
+    - cbn [rset_dep adv r_len] in Hrun. rewrite Hrun. cbn [bind frev rev_append app]. exists st'. split; [reflexivity|].
+      cbn [rset_dep adv r_pos] in Hp'. rewrite Hp'. rewrite len_app, len_pad. fold p data. lia.
   Qed.
 End R.
